@@ -2,7 +2,7 @@
 import hashlib, json, os, re, subprocess, time
 import vlib, runscen
 
-THEOREMS = [("Properties.C12", "C12_holds"), ("Properties.C12", "C12_invocations_holds"), ("AsFound.C12", "C12_as_found_refuted")]
+THEOREMS = [("Properties.C12", "C12_holds"), ("Properties.C12", "C12_invocations_holds"), ("Properties.C12", "C12_confinement_holds"), ("AsFound.C12", "C12_as_found_refuted"), ("AsFound.C12", "C12_confinement_as_found_refuted")]
 CORRESPONDENCE = "monorail run histories (pointer file, run/<id> directories, result show, log show [--id]) == Model.Tracking.history"
 LEVEL_NOTE = ("Coq theorem C12_holds (every max_retained_runs >= 1, every history length): after the completed runs r1..rk the pointer addresses slot ((k-1) mod M)+1, "
               "that slot holds exactly rk's log files and result (wipe-then-create), each of the last min(k,M) runs is intact in its slot, and no slot outside 1..M exists. "
@@ -189,12 +189,41 @@ def history(ctx, rng, M, n_runs, CFG=CFG, CMDS=CMDS, wide=False):
     finally:
         rr.close()
 
+NAME_POOL = ["build", "ok.name", "a-b_c", "\u00fcn\u00ef", "\u65e5\u672c", "..", ".", "...", "..x", "x..", "a/", "/abs", "a//b", "./a", "a/.", "../7", "../1/build", "x/y", "a/../b", "x\\y", "~", "CON", "a:b"]
+def command_name_round(ctx, rng):
+    """Which command names `run` accepts: decided by the model of the check in get_all_commands (Model.RunPaths.name_accepted, proved to
+    be 'one path component that is not . or ..'); an accepted name's log directory is run/<slot>/<name>/<hash> and nothing else appears."""
+    rr = runscen.RunRepo(ctx, {"targets": [{"path": "t1"}]}, M=3, commands=["build"])
+    try:
+        for name in rng.sample(NAME_POOL, 10 if ctx.quick() else len(NAME_POOL)):
+            v = ctx.model.call("cmdname", name)
+            want = bool(v[0])
+            before = set(os.listdir(os.path.join(rr.out_dir(), "run"))) if os.path.isdir(os.path.join(rr.out_dir(), "run")) else set()
+            rc, out, err, raw = rr.run("-c", name, "-t", "t1")
+            accepted = rc in (0, 1) and out is not None
+            ptr = rr.pointer(); slots = rr.slots()
+            dirs = set(str(k) for k in slots)
+            ok = accepted == want and dirs <= {"1", "2", "3"}
+            if accepted:
+                sd = os.path.join(rr.out_dir(), "run", str(ptr))
+                ok = ok and sorted(os.listdir(sd)) == sorted([name, "result.json.zst"]) and os.listdir(os.path.join(sd, name)) == [runscen.thash("t1")]
+                rcl, _, _, _ = vlib.monorail(rr.repo, "log", "show", "--stdout", "--stderr")
+                ok = ok and rcl == 0
+            else:
+                ok = ok and dirs == before
+            ctx.count("command_name_" + ("accepted" if accepted else "rejected"))
+            ctx.record({"command_name": name}, True, accepted == want, ok, True, sample={"name": name, "accepted": accepted, "model": want},
+                       detail={"name": name, "accepted": accepted, "model_accepts": want, "rc": rc, "err": err, "run_dirs": sorted(dirs)})
+    finally:
+        rr.close()
+
 def run(ctx, scale):
     import random
     rng = ctx.rng
     plan = [(2, 8), (1, 4), (3, 11), (10, 13), (100, 3)] if ctx.quick() else [(100, 4), (1000, 3)] + [(m, 3 * m + 2) for m in (1, 2, 3, 5)] * 8 + [(10, 23), (11, 25), (12, 14)] * 2
     for (M, n) in plan * scale:
         history(ctx, random.Random(rng.getrandbits(32)), M, n)
+    command_name_round(ctx, random.Random(rng.getrandbits(32)))
     # a configuration with hundreds of targets: the stored result record is far larger than any I/O buffer
     for (M, n) in ([(2, 4)] if ctx.quick() else [(2, 6), (3, 8)]) * scale:
         history(ctx, random.Random(rng.getrandbits(32)), M, n, CFG=WIDE, CMDS=["build", "test"], wide=True)
@@ -202,6 +231,9 @@ def run(ctx, scale):
 def replay(ctx, case):
     import random
     c = case.get("case", case)
+    if "command_name" in c:
+        command_name_round(ctx, random.Random(ctx.seed))
+        return {"spec_failures": [d for _, d in ctx.spec_failures][:3], "disagreements": [d for _, d in ctx.tie_breaks][:3]}
     if c.get("wide"): history(ctx, random.Random(ctx.seed), c.get("M", 2), c.get("step", 3) + 1, CFG=WIDE, CMDS=["build", "test"], wide=True)
     else: history(ctx, random.Random(ctx.seed), c.get("M", 2), c.get("step", 6) + 1)
     return {"spec_failures": [d for _, d in ctx.spec_failures][:3], "disagreements": [d for _, d in ctx.tie_breaks][:3]}
